@@ -139,10 +139,14 @@ type vStub struct {
 	openErr error
 	gotMD   metadata.MD
 	opened  int
+	onOpen  func() // runs while Serve is opening its stream
 }
 
 func (s *vStub) OpenReverseTunnel(ctx context.Context, opts ...grpc.CallOption) (grpc.BidiStreamingClient[tunnelpb.ServerToClient, tunnelpb.ClientToServer], error) {
 	s.opened++
+	if s.onOpen != nil {
+		s.onOpen()
+	}
 	s.gotMD, _ = metadata.FromOutgoingContext(ctx)
 	if s.openErr != nil {
 		return nil, s.openErr
@@ -162,7 +166,7 @@ func verifH_Serve() {
 	hl := &vHandlerLog{}
 	srv := NewReverseTunnelServer(stub)
 	srv.handlers = vHandlers(hl)
-	scenario := verifChoice("scenario", 7)
+	scenario := verifChoice("scenario", 8)
 	negotiates := verifBool("peerNegotiates")
 	if negotiates {
 		str.hdr = metadata.MD{grpctunnelNegotiateKey: {grpctunnelNegotiateVal}}
@@ -182,6 +186,16 @@ func verifH_Serve() {
 	case 5: // tunnel-level protocol error: a frame for a stream that was never created
 		str.script = []*tunnelpb.ClientToServer{{StreamId: 7, Frame: &tunnelpb.ClientToServer_HalfClose{HalfClose: &emptypb.Empty{}}}}
 		str.hold = true
+	case 7: // the server is stopped while this Serve call is still opening its stream
+		str.hold = true
+		graceful := verifBool("gracefulStop")
+		stub.onOpen = func() {
+			if graceful {
+				srv.GracefulStop()
+			} else {
+				srv.Stop()
+			}
+		}
 	case 6: // tunnel-level protocol error: stream id reused
 		str.script = []*tunnelpb.ClientToServer{
 			{StreamId: 1, Frame: &tunnelpb.ClientToServer_NewStream{NewStream: &tunnelpb.NewStream{MethodName: "a/s"}}},
@@ -198,6 +212,10 @@ func verifH_Serve() {
 	switch scenario {
 	case 0, 1:
 		verifAssert(!started && err != nil, "C04.failed-open-reported")
+	case 7:
+		verifCover("stopped-while-opening")
+		// Stop/GracefulStop returned believing nothing is being served: this call must not start serving
+		verifAssert(!started && status.Code(err) == codes.Unavailable, "C04+C10.serve-that-lost-the-race-with-stop-is-refused")
 	case 2:
 		verifCover("refused-while-stopping")
 		verifAssert(!started && status.Code(err) == codes.Unavailable, "C10.serve-refused-while-shutting-down")
@@ -219,7 +237,7 @@ func verifH_Serve() {
 		// otherwise the network server keeps a dead tunnel registered and routes RPCs into it
 		verifAssert(str.closeSends > 0 || str.ctx.Err() != nil, "C04+C12+C14.serve-ends-the-carrier-it-opened")
 	}
-	if scenario >= 3 {
+	if scenario >= 3 && scenario <= 6 {
 		// settings are emitted iff the peer negotiates, with id -1 and the local revision list
 		nsettings := 0
 		for i, f := range str.sent {
